@@ -19,10 +19,14 @@
 (* Tmp ; Rename             (Atomic = TRUE, the design C20 needs).         *)
 (* Fault may strike between any two steps and aborts the invocation.       *)
 (* SkipTruth says whether the truth file is excluded from conforming.      *)
+(* A file may be named on the command line by any spelling of its path     *)
+(* (relative, through a symbolic link, ...): `spell` records whether the   *)
+(* spelling is the canonical one.  BySpelling = TRUE is the design in      *)
+(* which the truth file is recognised by comparing spellings, not files.   *)
 (***************************************************************************)
 EXTENDS Naturals, Sequences, FiniteSets, TLC
 
-CONSTANTS Atomic, SkipTruth, MaxRuns
+CONSTANTS Atomic, SkipTruth, MaxRuns, BySpelling
 
 Kinds == <<"argparse", "class", "function">>     \* processing order of ground_truth
 K     == {"argparse", "class", "function"}
@@ -49,43 +53,46 @@ VARIABLES fs,        \* the project
           pre,       \* snapshot at Begin (re-taken by user edits)
           report,    \* per kind: reported as changed by this invocation
           synced,    \* a completed invocation since the last edit
-          runs, faulted
-vars == <<fs, truth, given, pc, idx, wstep, pre, report, synced, runs, faulted>>
+          runs, faulted,
+          spell      \* "canon" | "alias" -- how the truth file was named on the command line (only its spelling can matter)
+vars == <<fs, truth, given, pc, idx, wstep, pre, report, synced, runs, faulted, spell>>
 
 Init == /\ truth \in K
         /\ given \in {g \in SUBSET K : truth \in g /\ Cardinality(g) >= 2}
         /\ fs \in {g \in [K -> PreStates] : g[truth] \in TruthStates /\ \A k \in K : (g[k].d = "absent" => ~g[k].canon)}
         /\ pc = "idle" /\ idx = 1 /\ wstep = "none" /\ pre = fs
         /\ report = [k \in K |-> FALSE] /\ synced = FALSE /\ runs = 0 /\ faulted = FALSE
+        /\ spell \in {"canon", "alias"}
 
 Cur      == Kinds[idx]
 TruthVer == pre[truth].d
-Keep(k)  == k \notin given \/ (SkipTruth /\ k = truth) \/ Wanted(fs[k], TruthVer) = fs[k]
+IsTruthFile(k) == k = truth /\ (BySpelling => spell = "canon")
+Keep(k)  == k \notin given \/ (SkipTruth /\ IsTruthFile(k)) \/ Wanted(fs[k], TruthVer) = fs[k]
 
 Begin == /\ pc = "idle" /\ runs < MaxRuns /\ ~faulted
          /\ pc' = "target" /\ idx' = 1 /\ pre' = fs /\ report' = [k \in K |-> FALSE] /\ runs' = runs + 1
-         /\ UNCHANGED <<fs, truth, given, wstep, synced, faulted>>
+         /\ UNCHANGED <<fs, truth, given, wstep, synced, faulted, spell>>
 DecideKeep  == /\ pc = "target" /\ wstep = "none" /\ idx <= 3 /\ Keep(Cur)
-               /\ idx' = idx + 1 /\ UNCHANGED <<fs, truth, given, pc, wstep, pre, report, synced, runs, faulted>>
+               /\ idx' = idx + 1 /\ UNCHANGED <<fs, truth, given, pc, wstep, pre, report, synced, runs, faulted, spell>>
 DecideWrite == /\ pc = "target" /\ wstep = "none" /\ idx <= 3 /\ ~Keep(Cur)
                /\ wstep' = (IF Atomic THEN "tmp" ELSE "open")
-               /\ UNCHANGED <<fs, truth, given, pc, idx, pre, report, synced, runs, faulted>>
+               /\ UNCHANGED <<fs, truth, given, pc, idx, pre, report, synced, runs, faulted, spell>>
 Open   == /\ wstep = "open" /\ fs' = [fs EXCEPT ![Cur] = Partial] /\ wstep' = "write"
-          /\ UNCHANGED <<truth, given, pc, idx, pre, report, synced, runs, faulted>>
+          /\ UNCHANGED <<truth, given, pc, idx, pre, report, synced, runs, faulted, spell>>
 Write  == /\ wstep = "write" /\ fs' = [fs EXCEPT ![Cur] = Wanted(pre[Cur], TruthVer)] /\ wstep' = "none" /\ idx' = idx + 1
-          /\ report' = [report EXCEPT ![Cur] = TRUE] /\ UNCHANGED <<truth, given, pc, pre, synced, runs, faulted>>
+          /\ report' = [report EXCEPT ![Cur] = TRUE] /\ UNCHANGED <<truth, given, pc, pre, synced, runs, faulted, spell>>
 Tmp    == /\ wstep = "tmp" /\ wstep' = "rename"
-          /\ UNCHANGED <<fs, truth, given, pc, idx, pre, report, synced, runs, faulted>>
+          /\ UNCHANGED <<fs, truth, given, pc, idx, pre, report, synced, runs, faulted, spell>>
 Rename == /\ wstep = "rename" /\ fs' = [fs EXCEPT ![Cur] = Wanted(pre[Cur], TruthVer)] /\ wstep' = "none" /\ idx' = idx + 1
-          /\ report' = [report EXCEPT ![Cur] = TRUE] /\ UNCHANGED <<truth, given, pc, pre, synced, runs, faulted>>
+          /\ report' = [report EXCEPT ![Cur] = TRUE] /\ UNCHANGED <<truth, given, pc, pre, synced, runs, faulted, spell>>
 End    == /\ pc = "target" /\ idx = 4 /\ wstep = "none" /\ pc' = "idle" /\ synced' = TRUE
-          /\ UNCHANGED <<fs, truth, given, idx, wstep, pre, report, runs, faulted>>
+          /\ UNCHANGED <<fs, truth, given, idx, wstep, pre, report, runs, faulted, spell>>
 Fault  == /\ pc = "target" /\ ~faulted /\ faulted' = TRUE /\ pc' = "idle" /\ wstep' = "none"
-          /\ UNCHANGED <<fs, truth, given, idx, pre, report, synced, runs>>
+          /\ UNCHANGED <<fs, truth, given, idx, pre, report, synced, runs, spell>>
 EditTruth == /\ pc = "idle" /\ ~faulted /\ runs < MaxRuns
              /\ \E v \in Ver : v # fs[truth].d /\ fs' = [fs EXCEPT ![truth] = File("mod", fs[truth].b, v, fs[truth].a, FALSE)]
              /\ pre' = fs' /\ report' = [k \in K |-> FALSE] /\ synced' = FALSE
-             /\ UNCHANGED <<truth, given, pc, idx, wstep, runs, faulted>>
+             /\ UNCHANGED <<truth, given, pc, idx, wstep, runs, faulted, spell>>
 
 Next == Begin \/ DecideKeep \/ DecideWrite \/ Open \/ Write \/ Tmp \/ Rename \/ End \/ Fault \/ EditTruth
 Spec == Init /\ [][Next]_vars
